@@ -69,6 +69,12 @@ class C14(XsProp):
                     a = ' '.join(str(i) for i in range(k))
                     b = ' '.join(str(i) for i in range(N))
                     cs.append('xs insnlimit %d | eval %s | %s | eval %s | dump' % (N, hexsrc(a), mid, hexsrc(b)))
+        # sources that run code while being built (meta blocks) and are then rejected: what they executed is not refunded
+        for N in (4, 6, 9):
+            for rej in ('#( 1 2 3 #) nosuchw', '#( 1 2 + drop #) then', '#( 5 6 7 8 #) 0x', '1 #( 2 3 4 #) #('):
+                for reps in (2, 3, 5):
+                    steps = ['xs insnlimit %d' % N] + ['eval %s' % hexsrc(rej)] * reps + ['eval %s' % hexsrc(' '.join(str(i) for i in range(N))), 'dump']
+                    cs.append(' | '.join(steps))
         # limits changed between evaluations on one interpreter
         for i in range(n // 5):
             a, b = rng.choice(progs_), rng.choice(progs_)
